@@ -612,7 +612,7 @@ def run_c10(ctx):
     q = ctx.quick()
     ctx.build(["yp"])
     def replay():
-        g = ctx.tlc("YangTreeGen", "YangTreeGen.cfg", workers=12, timeout=850, heap="10g",
+        g = ctx.tlc("YangTreeGen", "YangTreeGen.cfg", workers=12, timeout=2400, heap="10g",
                     consts={"Size": '"quick"' if q else '"thorough"', "NFam": 24, "NTrees": 0 if q else 1, "NLay": 3 if q else 10},
                     extra=["-seed", str(ctx.seed)])
         files = vec_files(g["dir"])
